@@ -12,14 +12,7 @@ import (
 
 	"verifsim/kit"
 
-	_ "verifsim/worlds/stateworld"
-	_ "verifsim/worlds/votedbworld"
-	_ "verifsim/worlds/networld"
-	_ "verifsim/worlds/evmworld"
-	_ "verifsim/worlds/c05world"
-	_ "verifsim/worlds/trieworld"
-	_ "verifsim/worlds/dlqworld"
-	_ "verifsim/worlds/versionworld"
+	_ "verifsim/worlds/c11world"
 )
 
 var userArgs []string
